@@ -380,7 +380,8 @@ class IntervalTier(textgrid_tier.TextgridTier):
                     # so if we've found it, move on
                     break
 
-            newMax = newTier.maxTimestamp - diff
+            # Rounding must not move the end of the tier before /start/
+            newMax = max(newTier.maxTimestamp - diff, start)
             newTier = newTier.new(entries=newEntryList, maxTimestamp=newMax)
 
         return newTier
